@@ -16,6 +16,7 @@ def addr : Term → Option Addr
     match s.splitOn "." with
     | ["v4", n] => n.toNat?.map fun n => ⟨.v4, n⟩
     | ["v6", n] => n.toNat?.map fun n => ⟨.v6, n⟩
+    | ["m4", n] => n.toNat?.map fun n => ⟨.v6, n + 100000⟩   -- an IPv4-mapped IPv6 address is an IPv6 address
     | _ => none
   | _ => none
 
@@ -37,7 +38,7 @@ def addr (a : Addr) : Term :=
   match a.kind with
   | .invalid => .atom "inv"
   | .v4 => .atom s!"v4.{a.id}"
-  | .v6 => .atom s!"v6.{a.id}"
+  | .v6 => if a.id ≥ 100000 then .atom s!"m4.{a.id - 100000}" else .atom s!"v6.{a.id}"
 def cfgShort (c : PeerCfg) : Term := .app "C" [addr c.remote, Term.nat c.localAS.toNat, Term.nat c.remoteAS.toNat]
 end Enc
 
@@ -169,6 +170,32 @@ def hBackoff : Handler
     pure ⟨m, o, s!"n{min gs.length 6}"⟩
   | _, _ => none
 
+/-- `errhist [ev(kind,gapSeconds),…]` => `[delaySeconds,…]` (0 = no hold-down): a history of damping errors, Ceases and
+transport errors through the real `handleError`. Oracle: only NOTIFICATIONs other than Cease count — for the ladder
+and for the 300 s of amnesia alike. -/
+def hErrHist : Handler
+  | [evs], impl => do
+    let evs ← (Term.asList evs).bind (·.mapM fun t => match t with
+      | .app "ev" [.atom k, g] => (Term.asNat g).map fun g =>
+          ((if k == "damp" then ErrKind.damp else if k == "cease" then ErrKind.cease else ErrKind.io), g)
+      | _ => none)
+    let ds := errHistory (evs.map fun (k, g) => (k, g * 1000000000))
+    let m := Term.list (ds.map fun d => Term.nat (d / 1000000000))
+    -- oracle: E.7 recurrence over the damping events only, gaps accumulated across the others
+    let rec spec (prev : Nat) (since : Option Nat) : List (ErrKind × Nat) → List Nat
+      | [] => []
+      | (k, g) :: rest =>
+        let since' := since.map (· + g * Spec.sec)
+        if k == ErrKind.damp then
+          let d := Spec.nextDelay prev since'
+          d :: spec d (some 0) rest
+        else 0 :: spec prev since' rest
+    let want := Term.list ((spec 0 none evs).map fun d => Term.nat (d / Spec.sec))
+    let o := if impl == want then Oracle.ok
+      else .fail "C12 only NOTIFICATIONs other than Cease (sent or received) start a hold-down, advance the back-off ladder and restart the 300 s after which it returns to 60 s; Cease and transport faults do neither"
+    pure ⟨m, o, s!"n{min evs.length 6}"⟩
+  | _, _ => none
+
 /-- `herr kind code out` => `damp(seconds)` | `nodamp`: the real `handleError` on one error -/
 def hHandleErr : Handler
   | [kind, code, out], impl => do
@@ -186,6 +213,6 @@ def hHandleErr : Handler
 /-- `admit [cfg…] src dst` => `peer(K)` | `closed`: the admission predicate (model/spec only; the
 implementation side is exercised by the live engine) -/
 def serverHandlers : List (String × Handler) :=
-  [("cfg", hCfg), ("reg", hReg), ("reglin", hRegLin), ("backoff", hBackoff), ("herr", hHandleErr)]
+  [("cfg", hCfg), ("reg", hReg), ("reglin", hRegLin), ("backoff", hBackoff), ("errhist", hErrHist), ("herr", hHandleErr)]
 
 end Driver
